@@ -27,6 +27,8 @@ pub struct Check {
     pub cross: Box<Oracle>,
     pub probes: Box<ProbeFn>,
     pub build: fn(&Ctx, Tier, u64) -> Vec<Job<'static>>,
+    /// the scenario domain of the property (minimisation never leaves it)
+    pub admissible: Box<dyn Fn(&Scenario) -> bool + Sync>,
     /// components that ran real / stubbed, for the evidence file
     pub real: Vec<&'static str>,
     pub stub: Vec<&'static str>,
@@ -167,6 +169,56 @@ pub fn common_probes(a: &Analysis, out: &mut Vec<&'static str>) {
     }
     out.sort();
     out.dedup();
+}
+
+/// configuration domain common to all properties
+pub fn domain_basic(sc: &Scenario) -> bool {
+    sc.ents.iter().all(|e| e.t_ack >= 1 && e.t_nak >= 1 && e.t_inact >= 1 && e.limit >= 1 && e.seg >= 24)
+}
+
+/// the C02 envelope (DESIGN section 6/C02)
+pub fn in_c02_envelope(sc: &Scenario) -> bool {
+    if !domain_basic(sc) {
+        return false;
+    }
+    let lim = gen::min_limit(sc);
+    let t = gen::min_timeout_us(sc);
+    let mut losses = 0u32;
+    for e in &sc.script {
+        match e {
+            Entry::Fault { act, .. } => match act {
+                Act::Drop | Act::Flip { .. } | Act::Trunc { .. } => losses += 1,
+                Act::Delay { us } => {
+                    if *us > t / 4 {
+                        return false;
+                    }
+                }
+                Act::Dup { n, gap_us } => {
+                    if *n as u64 * *gap_us > t / 4 {
+                        return false;
+                    }
+                }
+            },
+            Entry::User { op, .. } => {
+                if matches!(op, UserOp::Cancel | UserOp::Suspend) {
+                    return false;
+                }
+            }
+            Entry::Blackout { .. } | Entry::ClockJump { .. } | Entry::Stall { .. } | Entry::Crash { .. } | Entry::Restart { .. } | Entry::FsFault { .. } | Entry::Inject { .. } => return false,
+        }
+    }
+    if losses >= lim {
+        return false;
+    }
+    let m = sc.ents.iter().map(|e| e.t_ack.max(e.t_nak)).max().unwrap_or(1);
+    if sc.ents.iter().any(|e| e.t_inact < m || e.nak_delay_ms * 1000 > t / 2) {
+        return false;
+    }
+    // latency and serialisation of a whole pass stay below a quarter of the shortest timer
+    let pdus: u64 = sc.puts.iter().map(|p| p.file.as_ref().map(|f| f.size / sc.ents[p.src].seg.max(1) as u64 + 4).unwrap_or(4)).sum();
+    let seg = sc.ents.iter().map(|e| e.seg as u64).max().unwrap_or(1024);
+    let pass = pdus * (sc.ser_us + sc.ser_ns_byte * (seg + 40) / 1000) + sc.lat_us;
+    pass <= t / 4
 }
 
 fn no_cross(_: &Analysis) -> Vec<Violation> {
@@ -448,6 +500,7 @@ pub fn registry(prop: &str) -> Option<Check> {
             cross: Box::new(|a| oracle::c12_sentinel(a)),
             probes: Box::new(common_probes),
             build: c01_build,
+            admissible: Box::new(domain_basic),
             real,
             stub,
         },
@@ -463,6 +516,7 @@ pub fn registry(prop: &str) -> Option<Check> {
             cross: Box::new(safety_cross),
             probes: Box::new(common_probes),
             build: c02_build,
+            admissible: Box::new(in_c02_envelope),
             real,
             stub,
         },
@@ -479,6 +533,7 @@ pub fn registry(prop: &str) -> Option<Check> {
             cross: Box::new(safety_cross),
             probes: Box::new(common_probes),
             build: c03_build,
+            admissible: Box::new(domain_basic),
             real,
             stub,
         },
